@@ -156,7 +156,7 @@ pub fn stream_wtwin(out: &mut Out, seed: u64, thorough: bool) {
 }
 
 fn one_wtwin<T: Sc>(out: &mut Out, rng: &mut Rng, thorough: bool, i: usize) {
-    let wk = [WKind::Positive, WKind::Zeros, WKind::Negatives, WKind::Wide, WKind::Ones][i % 5];
+    let wk = [WKind::Positive, WKind::Zeros, WKind::Negatives, WKind::Wide, WKind::Ones, WKind::Constant][i % 6];
     let fl = *rng.pick(&[Flavour::New, Flavour::Mrhs, Flavour::Mrhs, Flavour::MrhsPar]);
     let mut c = base_case::<T>(rng, thorough, i, fl, wk);
     c.origin = "wtwin";
